@@ -1115,6 +1115,8 @@ func runConc(h *H, mode string, seed, n int, impl *bufio.Writer) int {
 		return runStress(h, c, seed, n)
 	case "concprobe":
 		return runProbe(h, c, impl)
+	case "concfirsttouch":
+		return runFirstTouch(h, c, seed, n)
 	}
 	return 2
 }
